@@ -58,6 +58,11 @@ def failing_blocks(k):
                                               '>>> t(%d) and R%d()' % (k, k)], ['5'], 3, 'ExtractGotReprException', 'extractrepr'))
     B.append(('bad_directive', ['>>> t(%d)  # xdoctest: +REQUIRES(module:a:b)' % k], [], 0, 'Exception', 'directive'))
     B.append(('bad_directive_lazy', ['', '>>>   # xdoctest: +REQUIRES(', ''], [], 1, 'Exception', 'directive'))
+    # a warning recorded for the doctest before it fails (code that warns is ordinary)
+    B.append(('warns_then_wrong_output', ['>>> import warnings', ">>> warnings.warn('careful %d')" % k, ">>> print('right', t(%d))" % k], ['wrong'], 3,
+              'GotWantException', 'gotwant'))
+    B.append(('warns_then_raises', ['>>> import warnings', ">>> warnings.warn('careful %d', RuntimeWarning)" % k, '>>> t(%d)' % k,
+                                    ">>> raise ValueError('after the warning')"], [], 3, 'ValueError', 'exception'))
     B.append(('traceback_want_mismatch', ['>>> boom(%d)' % k], ['Traceback (most recent call last):', 'KeyError: other'], 1, 'GotWantException', 'gotwant'))
     return B
 
@@ -250,7 +255,11 @@ def runner_checks(ctx, cases):
         picks = list(cases)
         if ctx.tier == 'quick':
             rng.shuffle(picks)
-            picks = picks[:48]
+            first = {}
+            for c in picks:
+                first.setdefault(c['name'], c)          # every failure kind at least once
+            rest = [c for c in picks if first[c['name']] is not c]
+            picks = list(first.values()) + rest[:max(0, 48 - len(first))]
         for n, c in enumerate(picks):
             modname = 'xdverif_c09_mod_%d' % n
             path = os.path.join(tmp, modname + '.py')
